@@ -366,8 +366,58 @@ func c13Edge(c *core.C) {
 	}
 }
 
+// c13LargeList: lists long enough to cross the batch sizes and thresholds of bulk shortcuts (64, 100, 128, ...):
+// a reordered copy is equal, a copy differing in ONE node - first, middle, last - is not.
+func c13LargeList(c *core.C) {
+	r := c.R
+	o := c13Pop()
+	o.PFill = 0.15
+	o.Depth = 1
+	n := gen.Pick(r, []int{63, 64, 65, 66, 100, 127, 128, 129, 130, 200, 257})
+	base := &sbom.NodeList{}
+	for i := 0; i < n; i++ {
+		base.Nodes = append(base.Nodes, gen.Node(r, fmt.Sprintf("n%03d", i), o))
+	}
+	for i := 1; i < n; i += 1 + r.Intn(3) {
+		base.Edges = append(base.Edges, &sbom.Edge{From: base.Nodes[r.Intn(i)].Id, Type: sbom.Edge_contains, To: []string{base.Nodes[i].Id}})
+	}
+	base.RootElements = []string{"n000"}
+	c.Cover(fmt.Sprintf("large-list:%d-nodes", n))
+	perm := gen.ShuffledPresentation(r, base)
+	c.Evals(2)
+	if !base.Equal(perm) || !perm.Equal(base) {
+		c.Violatef("list-order-sensitive:large", map[string]any{"nodes": n}, "a list of %d nodes and a reordered copy of it compare unequal", n)
+		return
+	}
+	for _, at := range []int{0, n / 2, n - 1, n - 2, 63 % n, 64 % n} {
+		m := gen.Clone(perm)
+		var victim *sbom.Node
+		for _, nd := range m.Nodes {
+			if nd.Id == fmt.Sprintf("n%03d", at) {
+				victim = nd
+			}
+		}
+		victim.Name += "-changed"
+		c.Evals(2)
+		if base.Equal(m) || m.Equal(base) {
+			c.Violatef("list-mutant-equal:large:node-name", map[string]any{"nodes": n, "changed_node_index": at}, "two lists of %d nodes that differ in the name of node %d compare equal", n, at)
+			return
+		}
+		m2 := gen.Clone(base)
+		m2.Nodes[at].Name += "-changed"
+		if base.Equal(m2) || m2.Equal(base) {
+			c.Violatef("list-mutant-equal:large:node-name", map[string]any{"nodes": n, "changed_node_index": at, "same_order": true}, "two same-ordered lists of %d nodes that differ in the name of node %d compare equal", n, at)
+			return
+		}
+	}
+}
+
 func c13List(c *core.C) {
 	r := c.R
+	if c.K%16 == 2 {
+		c13LargeList(c)
+		return
+	}
 	o := c13Pop()
 	o.PFill = 0.6
 	ids := []string{"na", "nb", "nc", "nd"}
